@@ -77,11 +77,15 @@ def concrete(inp):
                 pass
     cls = inp.get("class")
     if cls:
-        try:
-            _incomplete(cls, symbolic=False)
-            bad.append("incomplete specification %s was accepted" % cls)
-        except Exception:
-            pass
+        xs = [v for v in (inp.get("x"),) if v is not None and 0 <= v <= 1] + [0.4, 0.0, 1.0]  # interior point and the two pure ends
+        Tq = inp.get("T") if inp.get("T") is not None and 260 < inp["T"] < 420 else 333.15
+        for xv in xs:
+            try:
+                _incomplete(cls, symbolic=False, x=float(xv), T=float(Tq))
+                bad.append("incomplete specification %s was accepted (composition %r, T=%r)" % (cls, xv, Tq))
+                break
+            except Exception:
+                pass
     return {"ok": not bad, "detail": "; ".join(bad), "inputs": inp}
 
 
@@ -150,11 +154,11 @@ def both_specified(job, entry, N):
             job.vacuity["failed"].append(tag + ": the valid twin never returns")
 
 
-def _incomplete(cls, symbolic=True):
+def _incomplete(cls, symbolic=True, x=0.4, T=333.15):
     S = build.S if symbolic else float
     c1, c2 = (build.sym_component("1", uniquac=True), build.sym_component("2", uniquac=True)) if symbolic else (Mixtures.H2O_EtOH.first_component, Mixtures.H2O_EtOH.second_component)
-    T = real("T") if symbolic else 333.15
-    x = real("x") if symbolic else 0.4
+    T = real("T") if symbolic else T
+    x = real("x") if symbolic else x
     comp = (build.comp(x, "molar") if symbolic else mixmod.Composition(x, "molar"))
     nrtl = pv.NRTLParameters(g12=S(1000.0), g21=S(500.0), alpha12=S(0.3))
     uq = pv.UNIQUACParameters(alpha_12=S(1.0), alpha_21=S(2.0), beta_12=S(0.1), beta_21=S(0.2), z=10)
@@ -249,7 +253,7 @@ def incomplete(job):
             if leaf.kind == "raised" and isinstance(leaf.value, (ValueError, KeyError)):
                 job.record(tag, "discharged", "raises %s: %s" % (type(leaf.value).__name__, str(leaf.value)[:60]))
             else:
-                job.prove(tag + "_does_not_return", dom + leaf.pc, z3.BoolVal(True), R_, {"class": cls}, fallback=[{"class": cls}])
+                job.prove(tag + "_does_not_return", dom + leaf.pc, z3.BoolVal(True), R_, {"class": cls, "x": x.t, "T": T.t}, fallback=[{"class": cls}])
         if n == 0:
             job.vacuity["failed"].append(cls)
     # the same class through the CSV loader (empty cell = no stated energy); concrete points, labelled as such
